@@ -61,7 +61,7 @@ def generate(rng, tier, i):
             hist.append({'op': 'stop'})
             hist.append({'op': 'wait', 'ms': int(cyc * rng.choice([1.2, 2.5]))})
     scn = {'kernel': gen.draw_kernel(rng), 'latency': gen.draw_latency(rng, not fd, [s['name'] for s in stacks]), 'stacks': stacks, 'ndtc': n,
-           'content_seed': rng.randrange(1 << 20), 'history': hist, 'reuse_objects': rng.random() < 0.4,
+           'content_seed': rng.randrange(1 << 20), 'history': hist, 'reuse_objects': rng.random() < 0.4, 'bound_method_callback': rng.random() < 0.4, 'resubscribe': rng.random() < 0.3,
            'dm22': [{'act': rng.random() < 0.5, 'spn': rng.choice(SPNS + [rng.getrandbits(19)]), 'fmi': rng.getrandbits(5), 'dest': rng.choice([0x50, 255])}
                     for _ in range(rng.choice([0, 1, 2]))]}
     return scn
@@ -94,7 +94,12 @@ def execute(scn, keep_log=False, hook=None):
     for r in receivers:
         d = j.Dm1(r.cas[0])
         sub_calls[r.name] = []
-        d.subscribe(lambda sa, lamps, dtcs, ts, name=r.name: sub_calls[name].append((sim.now, sa, dict(lamps), [dict(x) for x in dtcs])))
+        listener = (lambda sa, lamps, dtcs, ts, name=r.name: sub_calls[name].append((sim.now, sa, dict(lamps), [dict(x) for x in dtcs])))
+        if scn.get('resubscribe'):
+            # a listener that was registered, removed and registered again before any traffic is a subscriber like any other
+            d.subscribe(listener)
+            d.unsubscribe(listener)
+        d.subscribe(listener)
 
     live_lamps, live_dtcs = {}, []
 
@@ -134,6 +139,14 @@ def execute(scn, keep_log=False, hook=None):
                 starts.append((fr.t, 'mpg'))
     bus.observers.append(observe)
 
+    class App:
+        # an application object: its bound method is a new (but equal) object on every attribute access
+        def supply(self):
+            return supplier()
+    app = App()
+
+    def cb():
+        return app.supply if scn.get('bound_method_callback') else supplier
     segments = []        # (t_start, cycle_ns, t_stop or None)
     cur = None
     for h in scn['history']:
@@ -141,11 +154,11 @@ def execute(scn, keep_log=False, hook=None):
             if cur is not None:
                 continue
             cur = [sim.now, h['cycle_ms'] * 1_000_000, None]
-            dm1_tx.start_send(supplier, h['cycle_ms'] / 1000.0)
+            dm1_tx.start_send(cb(), h['cycle_ms'] / 1000.0)
         elif h['op'] == 'stop':
             if cur is None:
                 continue
-            dm1_tx.stop_send(supplier)
+            dm1_tx.stop_send(cb())
             stats['stops'] += 1
             cur[2] = sim.now
             segments.append(tuple(cur))
